@@ -308,6 +308,13 @@ def handle (op : String) (args : List String) : String :=
     match parseModel m, (SExpr.parse ty).bind parseTy, parseExpr lam with
     | some m, some ty, some (.lam [x] body) => okE (streamOpElab m ty x body)
     | _, _, _ => bad
+  | "streamOpQuery", [m, op, src, ty, lam] =>
+    -- the query of the stream a typed operator returns (Model/StreamQuery.lean): MetaData wrappers on the source, then the operator
+    match parseModel m, parseExpr src, (SExpr.parse ty).bind parseTy, parseExpr lam with
+    | some m, some src, some ty, some lam => (match streamOpQuery m op src ty lam with
+      | .ok (q, t, log) => "ok\t" ++ (SExpr.list [q.toSExpr, renderTy t, strsToSExpr log]).render
+      | .error err => "err\t" ++ err.render)
+    | _, _, _, _ => bad
   | "untypedHyp", [m, ty, lam] =>
     -- hypotheses of streamOp_untyped_identity: untyped item type, no call of a registered function by name
     match parseModel m, (SExpr.parse ty).bind parseTy, parseExpr lam with
